@@ -696,7 +696,7 @@ class ExprBuilder:
                     if not rest:
                         return e
         if rest and rest[0]["k"] == "field":
-            if e[0] == "agg" and e[1] == "tuple":
+            if e[0] == "agg" and e[1] in ("tuple", "adt"):
                 e, rest = component(e, rest)
             elif e[0] == "phi" and all(a[0] == "agg" and a[1] == "tuple" for a in e[2]):
                 parts = [component(a, list(rest)) for a in e[2]]
